@@ -197,6 +197,12 @@ func olit(s string, i int) (*big.Int, int, status) {
 // literal with a superfluous leading zero makes the status unspecified; its token carries the
 // decimal reading, again only for the budget.
 func olex(s string) ([]otok, status) {
+	ts, st, _ := olexFull(s)
+	return ts, st
+}
+
+// olexFull is olex that also reports whether the whole text was lexed (no lexical error).
+func olexFull(s string) ([]otok, status, bool) {
 	var ts []otok
 	operand := true
 	st := wellFormed
@@ -217,7 +223,7 @@ func olex(s string) ([]otok, status) {
 				j = digitsWhile(s, i, isDec)
 				v = horner(s[i:j], 10)
 			} else if ls == malformed {
-				return ts, worst(st, malformed)
+				return ts, worst(st, malformed), false
 			}
 			ts = append(ts, otok{val: v})
 			i = j
@@ -225,16 +231,16 @@ func olex(s string) ([]otok, status) {
 			continue
 		}
 		if !isOp(s[i]) {
-			return ts, worst(st, malformed)
+			return ts, worst(st, malformed), false
 		}
 		ts = append(ts, otok{op: s[i]})
 		i++
 		operand = true
 	}
 	if operand { // empty, or trailing operator
-		return ts, worst(st, malformed)
+		return ts, worst(st, malformed), true
 	}
-	return ts, st
+	return ts, st, true
 }
 
 func worst(a, b status) status {
@@ -401,20 +407,89 @@ func clip(s string) string {
 	return s
 }
 
-// tooBig reports whether evaluating the expression (or, for a malformed one, the tokens up to
-// the first error: the evaluator works left to right) involves a power outside the test budget.
-// Leading-zero decimals are read as decimal here, an upper bound of their octal reading.
+// tooBig reports whether evaluating the text would involve a power outside the test budget.
+// Generator-side only (it decides which cases are emitted, it judges nothing): a guarded
+// replay of the textbook shunting yard on the tokens read up to the first lexical error.
+// It has to follow the yard rather than the grammar because on a malformed text the evaluator
+// still applies operators before it reports the error: "3 - 536870912 ^" computes
+// 3^536870912 and only then fails with "too few operands". Leading-zero decimals are read as
+// decimal here, an upper bound of their octal reading.
 func tooBig(s string) bool {
-	ts, _ := olex(s)
-	if len(ts) > 0 && ts[len(ts)-1].op != 0 {
-		ts = ts[:len(ts)-1]
+	ts, _, complete := olexFull(s)
+	var vs []*big.Int
+	var os []byte
+	prec := func(op byte) int {
+		if op == '+' || op == '-' {
+			return 2
+		}
+		return 3
 	}
-	if len(ts) == 0 {
+	// apply returns (continue, tooBig)
+	apply := func(op byte) (bool, bool) {
+		n := len(vs)
+		if n < 2 {
+			return false, false
+		}
+		x, y := vs[n-2], vs[n-1]
+		var z *big.Int
+		switch op {
+		case '^':
+			v, err := pow(x, y)
+			if err != nil {
+				return false, true
+			}
+			z = v
+		case '*':
+			z = new(big.Int).Mul(x, y)
+		case '/':
+			if y.Sign() == 0 {
+				return false, false
+			}
+			z = ediv(x, y)
+		case '+':
+			z = new(big.Int).Add(x, y)
+		default:
+			z = new(big.Int).Sub(x, y)
+		}
+		vs = append(vs[:n-2], z)
+		return true, false
+	}
+	for _, t := range ts {
+		if t.op == 0 {
+			vs = append(vs, t.val)
+			continue
+		}
+		for len(os) > 0 {
+			top := os[len(os)-1]
+			if prec(top) < prec(t.op) || (prec(top) == prec(t.op) && t.op == '^') {
+				break
+			}
+			cont, big := apply(top)
+			if big {
+				return true
+			}
+			if !cont {
+				return false
+			}
+			os = os[:len(os)-1]
+		}
+		os = append(os, t.op)
+	}
+	if !complete {
 		return false
 	}
-	p := &parser{ts: ts}
-	_, err := p.expr()
-	return err == errTooBig
+	for len(os) > 0 {
+		top := os[len(os)-1]
+		os = os[:len(os)-1]
+		cont, big := apply(top)
+		if big {
+			return true
+		}
+		if !cont {
+			return false
+		}
+	}
+	return false
 }
 
 func oracle(c, res string) string {
@@ -713,11 +788,7 @@ func gen(tier string, r *lib.Rand, emit func(string)) {
 	}
 
 	// (a) exhaustive small scope: all sequences over smallLits with every operator.
-	full := 3
-	if thorough {
-		full = 3
-	}
-	for k := 0; k <= full; k++ {
+	for k := 0; k <= 3; k++ {
 		total := seqCount(k)
 		for idx := uint64(0); idx < total; idx++ {
 			toks := seqTokens(k, idx)
@@ -737,7 +808,7 @@ func gen(tier string, r *lib.Rand, emit func(string)) {
 	// sampled sequences of 4 and 5 operators as lines (model and implementation both run them)
 	nsample := 4000
 	if thorough {
-		nsample = 400000
+		nsample = 150000
 	}
 	for k := 4; k <= 5; k++ {
 		total := seqCount(k)
@@ -755,6 +826,9 @@ func gen(tier string, r *lib.Rand, emit func(string)) {
 	sweepTo := 4
 	if thorough {
 		sweepTo = 5
+	}
+	if os.Getenv("C13_NOSWEEP") != "" { // profiling aid only
+		sweepTo = 0
 	}
 	for k := 4; k <= sweepTo; k++ {
 		bad, skipped := sweep(k)
